@@ -69,7 +69,7 @@ def build_check(prefix, sp: AggSpec, clauses=("rejects", "post", "dtype", "shape
             it = H.interp(cx)
             J, (m, n) = sym_matrix(cx, "J")
             cx.assume(m >= 1)
-            kwargs, cfg = sp.config(cx, m)
+            kwargs, cfg = sp.config(cx, m, J)
             if sp.pre is not None:
                 cx.assume(sp.pre(cx, J, m, n, cfg))
             kind, agg = call_catch(lambda: it.call(H.repo.get(sp.cls), [], dict(kwargs)))
@@ -119,15 +119,15 @@ def vecmat(it, w, J):
         return S.matmul(it, w, J)
 
 
-def no_cfg(cx, m):
+def no_cfg(cx, m, J):
     return {}, {}
 
 
 def pref_cfg(with_pref):
-    def config(cx, m):
+    def config(cx, m, J):
         if not with_pref:
             return {"pref_vector": None}, {"pref": None}
-        u, ulen = sym_vector(cx, "u")
+        u, ulen = sym_vector(cx, "u", dtype=J.dtype)  # precondition: configured vectors have the dtype of the matrix
         return {"pref_vector": u}, {"pref": u, "plen": ulen}
     return config
 
@@ -150,8 +150,8 @@ def spec_sum(it, J, m, n, cfg, cx):
     return [(TRUE, vecmat(it, S.sum_weights(it, J), J))]
 
 
-def cfg_constant(cx, m):
-    w, wl = sym_vector(cx, "w")
+def cfg_constant(cx, m, J):
+    w, wl = sym_vector(cx, "w", dtype=J.dtype)
     return {"weights": w}, {"w": w, "wlen": wl}
 
 
